@@ -70,6 +70,10 @@ CLAIMED = {
     "C36": ("E2", "symbolic execution of handle_item's comment arm and of the @use/@forward module initialiser closures (MIR), obligations decided by z3 and cvc5",
             "bounded model checking (dispatch scope): which loud comments reach the output in which style, that the emitted text is the evaluated comment, and that a "
             "used module is evaluated with the using compilation's format; one recorded finding (compressed style drops /*! comments too); parsing and re-indentation are outside"),
+    "C37": ("E2", "symbolic execution of Scope::do_use's prefix branch, Expose::allow_fun/allow_var and the `with` loop of the @use/@forward initialiser closures (MIR); z3 and cvc5",
+            "bounded model checking (filter and configuration scope): @forward's show/hide filter is applied with the right list to each kind of member under its prefixed name; "
+            "configured variables are defined in the module scope before the module runs and may be configured once; one recorded finding (configuration of a variable the module "
+            "does not declare with !default is accepted); namespaces, private members and `as *` are outside"),
 }
 
 NOT_APPLICABLE = {
@@ -90,7 +94,6 @@ NOT_APPLICABLE = {
     "C33": "Formatted<Rgba>/<Hsla> Display impls: core::fmt (see C10)",
     "C34": "equality of two dispatch tables built at LazyLock init (BTreeMap, parser for defaults)",
     "C35": "metamorphic relation between two parses of rewritten sources: parser",
-    "C37": "Scope::do_use/expose over Mutex<BTreeMap>: same obstacle as C16",
     "C38": "agreement of whole-compilation entry points",
     "C40": "the CLI process",
 }
